@@ -153,7 +153,18 @@ func exhaustive(k int, emit func(string)) {
 	rec("", k)
 }
 
+// first lines spelled like the load-file header, with every way of writing the name (bare, quoted, ending in backslashes,
+// unterminated, empty, with or without a line feed after it)
+var moduleHeaders = []string{
+	";; $MODULE a.lisp\n", ";; $MODULE \"a.lisp\"\n", ";; $MODULE \"\\\"\n", ";; $MODULE \"C:\\lisp\\\"\n", ";; $MODULE \"x\\\\\\\"\n",
+	";; $MODULE \"\n", ";; $MODULE \"\"\n", ";; $MODULE \\\n", ";; $MODULE \"a\\", ";; $MODULE ", ";; $MODULE\n", ";; $MODULE  spaced name \n",
+	";; $MODULE 'q'\n", ";; $MODULE \"unterminated\n", ";; $MODULE \"\\",
+}
+
 func genTextCase(r *rng) string {
+	if r.chance(1, 25) {
+		return r.pick(moduleHeaders) + genForm(r, 2)
+	}
 	s := genForm(r, 4)
 	if r.chance(1, 6) {
 		s = s + r.pick([]string{" ", "\n", " ; trailing", "\n; c\n", " " + genForm(r, 2)})
@@ -352,6 +363,13 @@ func (e *readEngine) generate(r *rng, n int, tier string, emit func(string)) {
 			emit(p)
 		}
 	})
+	for _, h := range moduleHeaders {
+		for _, tail := range []string{"", "(+ 1 2)", "\n(+ 1 2)"} {
+			for _, f := range flagsets[:2] {
+				emit(f + " x" + hex.EncodeToString([]byte(h+tail)))
+			}
+		}
+	}
 	for i := 0; i < n; i++ {
 		f := r.pick(flagsets)
 		if r.chance(1, 5) {
